@@ -388,6 +388,25 @@ func init() {
 				res = append(res, J{"dir": dir, "kind": kind, "visible": vis, "note": note})
 			}
 		}
+		for _, dir := range []string{"cond_failure_put_error", "cond_failure_delete_error"} {
+			for _, kind := range pokeKinds {
+				var vis bool
+				var note string
+				func() {
+					defer func() {
+						if r := recover(); r != nil {
+							note = fmt.Sprint("panic: ", r)
+						}
+					}()
+					if sdk == "v1" {
+						vis, note = pokeCondV1(kind, dir == "cond_failure_delete_error")
+					} else {
+						vis, note = pokeCondV2(kind, dir == "cond_failure_delete_error")
+					}
+				}()
+				res = append(res, J{"dir": dir, "kind": kind, "visible": vis, "note": note})
+			}
+		}
 		for _, dir := range pokeKeyDirs {
 			for _, kind := range pokeKeyKinds {
 				var vis bool
